@@ -177,7 +177,7 @@ def _bare_names(v, out, want=None):
     if A.is_form(v):
         for k in v:
             if isinstance(k, str):
-                out.update(x for x in _BARE.findall(k) if x not in ("true", "false"))
+                out.update(x for x in _BARE.findall(k) if x not in ("true", "false", "self"))  # `self` is the receiver, not an untraced local
         return
     sub = (lambda key: None) if want is None or A.is_form(want) or want[0] != v[0] else None
     if v[0] in ("tup", "fmt", "early"):
